@@ -128,9 +128,9 @@ PROPS["C17"] = {
 PROPS["C16"] = {
     "level": "exploration",
     "engines": [
-        {"bin": "hv", "args": ["c16"]},
+        {"bin": "hv", "args": ["c16"], "needs": ["server"]},
     ],
-    "min": {"quick": {"exhaustive_sequences": 3_900_000, "concurrent_histories": 200, "concurrent_hits_checked": 1000, "handler_requests": 100, "real_sleeps": 2},
+    "min": {"quick": {"exhaustive_sequences": 3_900_000, "concurrent_histories": 200, "concurrent_hits_checked": 1000, "handler_requests": 100, "real_sleeps": 2, "multi_host_answers_own_file": 150},
             "thorough": {"exhaustive_sequences": 90_000_000}},
     "assumptions": [],
     "level_text": "Every operation sequence of length 4 (5 thorough) over 3 keys x 2 hosts x 3 sizes is executed on the real Cache for 12 limit configurations with a shadow-map monitor probing all keys after every operation; long random sequences, concurrent histories through the RwLock (per-key interval check) and the two real handlers over changing files complete the picture.",
